@@ -253,7 +253,8 @@ Definition check (t : term) : term :=
              the final set through [obs'] = [sterms] when hashing *)
           let spec_ok :=
             term_eqb (TL obs') (TL sterms)                      (* membership answers, errors, digests *)
-            && list_eqb N.eqb root fresh in                     (* history independence on the implementation itself *)
+            && list_eqb N.eqb root fresh                        (* history independence on the implementation itself *)
+            && negb (has_ioerr shape) in                        (* and the stored trie can be read back (GetStats would fail otherwise) *)
           let corr :=
             term_eqb (TL obs') (TL mterms)
             && term_eqb shape (term_of_otrie mfinal) in         (* the stored trie is the model's trie *)
